@@ -447,3 +447,116 @@ Proof.
     + destruct (trimmed_by act o1) eqn:Ht; [discriminate|]. intros [= <-]. tauto.
     + intros [H2 Ht]. assert (o = o1) as -> by eauto. rewrite Ht. reflexivity.
 Qed.
+
+(* ------------------------------------------------------------------ *)
+(* C07_restart_exact                                                    *)
+
+Lemma restart_exact : forall rc d nxt m' d',
+  restart rc d nxt = (m', d') ->
+  contiguous_on_disk rc d ->
+  (* nothing is closing after a restart *)
+  closed m' = ∅ /\
+  (* durable circuits = old ones minus the purged ones ... *)
+  (forall k pay, d_adds d' !! k = Some pay <-> d_adds d !! k = Some pay /\ purged_add rc d k = false) /\
+  (* ... where purged means: incoming channel fully closed, or some keystone of it
+     is purged (its incoming or outgoing channel fully closed, unless an on-chain
+     resolution for the outgoing key still awaits delivery) *)
+  (forall k, purged_add rc d k = true <->
+     is_closed (closed_set rc) k.1 = true \/
+     exists o, d_ks d !! o = Some k /\ purge_ks_pred rc (o, k) = true) /\
+  (* memory knows exactly the durable circuits *)
+  (forall k id, pending m' !! k = Some id <-> id = inr k /\ exists pay, d_adds d' !! k = Some pay) /\
+  (forall k id o, pending m' !! k = Some id -> get_obj m' id = Some o ->
+     o_inc o = k /\ o_loaded o = true /\ d_adds d' !! k = Some (o_pay o)) /\
+  (* a re-forward of a restored circuit is never an Add: Drop while it has a
+     keystone, FAIL once its keystone was rolled back *)
+  (forall k, pending m' !! k <> None ->
+     exists o, found_obj m' k = Some o /\ o_loaded o = true /\
+       classify (Some o) = match o_out o with Some _ => ADrop | None => AFail end) /\
+  (* SURVIVING KEYSTONES: a circuit stays open exactly if its keystone survived the
+     closed-channel purge, its circuit is durable, and its outgoing HtlcID is below
+     NextLocalHtlcIndex of its (active, non-pending) channel ... *)
+  (forall (o : key) id, opened m' !! o = Some id <->
+     exists k, id = inr k /\ live_ks rc d o k /\ trimmed_by (rc_active rc) o = false) /\
+  (* ... the others are rolled back ON DISK as well (a stray keystone without circuit
+     is pruned only for hop.Source) ... *)
+  (forall o k : key, d_ks d' !! o = Some k <->
+     d_ks d !! o = Some k /\ purge_ks_pred rc (o, k) = false /\
+     (d_adds d' !! k <> None -> trimmed_by (rc_active rc) o = false) /\
+     (d_adds d' !! k = None -> o.1 <> 0)) /\
+  (* ... and the circuit's Outgoing field: nil as soon as one of its keystones was
+     rolled back, else the last keystone in bbolt key order *)
+  (forall (k : key) id ob, pending m' !! k = Some id -> get_obj m' id = Some ob ->
+     o_out ob = if existsb (trimmed_by (rc_active rc)) (outs_of (d_ks (clean rc d)) k) then None
+                else max_key (outs_of (d_ks (clean rc d)) k)) /\
+  (* with one keystone per circuit (link discipline) the circuit is half-open
+     exactly if it is not opened: it is then failed back, not lost or doubled *)
+  (single_keystone (d_ks d) ->
+   forall (k : key) id ob (o : key), pending m' !! k = Some id -> get_obj m' id = Some ob ->
+     (o_out ob = Some o <-> opened m' !! o = Some (inr k))).
+Proof.
+  intros rc d nxt m' d' H Hc.
+  destruct (restart_pending _ _ _ _ _ H) as (A & B & C & D).
+  pose proof (contiguous_on_disk_above rc d nxt Hc) as Hc'.
+  destruct (restart_keystones rc d nxt m' d' _ _ H eq_refl eq_refl Hc') as (K1 & K2 & K3).
+  assert (Hadds : forall k : key, d_adds (clean rc d) !! k = d_adds d' !! k).
+  { intros k. apply option_eq. intros pay. rewrite clean_adds, B. reflexivity. }
+  assert (Hopen : forall (o : key) id, opened m' !! o = Some id <->
+     exists k, id = inr k /\ live_ks rc d o k /\ trimmed_by (rc_active rc) o = false).
+  { intros o id. rewrite K1. unfold live_ks. split.
+    - intros (k & -> & Hks & Hk & Ht). apply clean_ks in Hks as [Hks Hp].
+      destruct (d_adds (clean rc d) !! k) as [pay|] eqn:Hk'; [|contradiction].
+      apply clean_adds in Hk' as [Hk1 Hk2]. exists k. repeat split; try assumption. congruence.
+    - intros (k & -> & (Hks & Hp & Hpa & Hk) & Ht). exists k. split; [reflexivity|].
+      split; [apply clean_ks; tauto|]. split; [|exact Ht].
+      destruct (d_adds d !! k) as [pay|] eqn:Hk'; [|contradiction].
+      assert (Hk2 : d_adds (clean rc d) !! k = Some pay) by (apply clean_adds; tauto).
+      rewrite Hk2. discriminate. }
+  assert (Hout : forall (k : key) id ob, pending m' !! k = Some id -> get_obj m' id = Some ob ->
+     o_out ob = if existsb (trimmed_by (rc_active rc)) (outs_of (d_ks (clean rc d)) k) then None
+                else max_key (outs_of (d_ks (clean rc d)) k)).
+  { intros k id ob Hp Hob. apply C in Hp as [-> _]. apply K3. exact Hob. }
+  split; [exact A|]. split; [exact B|]. split; [intros k; apply purged_add_spec|].
+  split; [exact C|]. split; [exact D|].
+  split; [intros k Hk; eapply restart_classify; eauto|].
+  split; [exact Hopen|]. split; [|split; [exact Hout|]].
+  - intros o k. rewrite K2, clean_ks, Hadds. tauto.
+  - intros Hs k id ob o Hp Hob. rewrite (Hout k id ob Hp Hob).
+    rewrite (single_out _ _ _ (single_keystone_clean rc d Hs)), K1.
+    apply C in Hp as [-> [pay Hpay]]. split.
+    + intros [Hks Ht]. exists k. rewrite Hadds, Hpay. repeat split; try assumption. discriminate.
+    + intros (k' & [= <-] & Hks & _ & Ht). tauto.
+Qed.
+
+(* witness: a gap in the outgoing HtlcIDs defeats the scan *)
+Definition gap_history : list input :=
+  [ ICall 0 (CCommit [((1, 0), 5); ((1, 1), 6)]); IDisk 0 true; IMem 0;
+    ICall 0 (COpen [((1, 0), (2, 0)); ((1, 1), (2, 2))]); IDisk 0 true; IMem 0 ].
+Definition gap_rc : rconf := RConf [] [] [(2, false, None, 0)].
+
+Lemma gap_not_contiguous : ~ contiguous_on_disk gap_rc (c_disk (run init gap_history).1).
+Proof.
+  intros H.
+  assert (Hin : (2, false, None, 0) ∈ rc_active gap_rc) by left.
+  assert (Hlive : live_ks gap_rc (c_disk (run init gap_history).1) (2, 2) (1, 1)).
+  { vm_compute. repeat split; try reflexivity. discriminate. }
+  assert (Hle : 0 <= 2) by lia.
+  assert (Hi : 0 <= 1 <= 2) by lia.
+  destruct (H (2, false, None, 0) 2 0 Hin eq_refl 2 (1, 1) Hlive Hle 1 Hi) as [k' [Hk' _]].
+  vm_compute in Hk'. discriminate.
+Qed.
+
+Lemma restart_gap_refuted :
+  exists ins rc (o k : key),
+    let c := (run init ins).1 in
+    let '(m', d') := restart rc (c_disk c) (next (c_mem c)) in
+    ~ contiguous_on_disk rc (c_disk c) /\
+    trimmed_by (rc_active rc) o = true /\
+    opened m' !! o = Some (inr k) /\ d_ks d' !! o = Some k /\
+    classify (found_obj m' k) = ADrop.
+Proof.
+  exists gap_history, gap_rc, (2, 2), (1, 1). cbv zeta.
+  destruct (restart gap_rc _ _) as [m' d'] eqn:E.
+  split; [exact gap_not_contiguous|].
+  vm_compute in E. injection E as <- <-. vm_compute. repeat split; reflexivity.
+Qed.
